@@ -41,7 +41,15 @@ func (pid *PeerID) UnmarshalText(data []byte) error {
 	if len(data) != enc.EncodedLen(len(pid)) {
 		return errors.New("data is wrong length")
 	}
-	enc.Decode(pid[:], data)
+	var decoded PeerID
+	n, err := enc.Decode(decoded[:], data)
+	if err != nil {
+		return err
+	}
+	if n != len(decoded) {
+		return errors.New("data is not a valid PeerID encoding")
+	}
+	*pid = decoded
 	return nil
 }
 
